@@ -806,6 +806,9 @@ func c13(c *h.Ctx) {
 		c13Handshake(c, false, other, false, 2)
 		c13Handshake(c, false, other, true, 2)
 	}
+	// the opening handshake against its model; the JSON entry points
+	c13Hs(c)
+	c13JSON(c)
 }
 
 func c13Bs(c *h.Ctx) []int {
